@@ -15,6 +15,9 @@ import (
 
 func randSubset(rng *rand.Rand, pool []string, max int) []string {
 	if rng.Intn(2) == 0 {
+		if rng.Intn(4) == 0 {
+			return []string{} // a list that is given and empty (include-tags: []) is ignored like an absent one
+		}
 		return nil
 	}
 	n := 1 + rng.Intn(max)
